@@ -265,6 +265,13 @@ class Discharger:
             return None, "bounds", "indexing with a run-time index in %s" % fn
         if kind == "assert":
             return None, "assert", "%s in %s" % (what, fn)
+        if re.search(r"(Hash|BTree)Map<.*as std::ops::Index<", what) and what.endswith("::index"):
+            # `map[&k]` is `map.get(&k).unwrap()`: same obligation as the ensure-get idiom, for every indexing of a map field
+            idxs = find_all(f.body, lambda n: n.get("k") == "index" and n["e"].get("k") == "field" and rx.is_var(n["e"]["e"], "self"))
+            if idxs:
+                res = [self.ensure_get(f, ix, {"k": "mcall", "l": ix.get("l"), "m": "get", "recv": ix["e"], "targs": [], "args": [ix["idx"]]}) for ix in idxs]
+                bad = [r_ for r_ in res if r_[0] is not True]
+                return (bad[0] if bad else res[0])
         return None, "census", "call of panicking API %s" % what
 
     # ------------------------------------------------------------ explicit panics
@@ -294,6 +301,14 @@ class Discharger:
                 return self.set_cover_tokens(f, mt, toks)
             if toks and all(t.split("::")[0] in ("GlobalOption", "ast::GlobalOption") or t.startswith("GlobalOption") for t in [x.replace("ast::", "") for x in toks]):
                 return self.variant_cover_update(f)
+            others = [a2 for a2 in mt["arms"] if a2 is not arm]
+            if len(others) == 1 and others[0]["guard"] is None:
+                q = others[0]["pat"]
+                while q["k"] in ("ref", "typed", "paren"):
+                    q = q["pat"]
+                if q["k"] == "tstruct" and q["segs"][-1] in ("Some", "Ok") and len(q["elems"]) == 1:
+                    # `match X { Some(v) => .., _ => panic }` (also the reading of `let Some(v) = X else { panic }`) is X.unwrap()
+                    return self.unwrap_node(f, {"k": "mcall", "l": mt.get("l"), "m": "unwrap", "recv": mt["scrut"], "targs": [], "args": []})
             return None, "variant-cover", "panicking catch-all in %s not recognised" % fn
         pv = rx.pat_variant(arm["pat"])
         if pv:
@@ -752,6 +767,10 @@ class Discharger:
         node = cand[0] if len(cand) == 1 else (cand[min(s["ord"], len(cand)) - 1] if cand else None)
         if node is None:
             return None, "census", "unwrap in %s not found in the syntax tree" % fn
+        return self.unwrap_node(f, node)
+
+    def unwrap_node(self, f, node):
+        fn = f.key
         recv = node["recv"]
         rs = src(recv)
         # const-arg: from_bits(0).unwrap()
@@ -813,7 +832,7 @@ class Discharger:
         core = recv
         while core["k"] == "mcall" and core["m"] in ("as_ref", "as_mut", "clone", "cloned", "copied", "as_deref") and not core["args"]:
             core = core["recv"]
-        if (core["k"] == "mcall" and core["m"] in ("get", "get_mut")) or (core["k"] == "field" and core is not recv):
+        if (core["k"] == "mcall" and core["m"] in ("get", "get_mut")) or (core["k"] == "field" and rx.is_var(core["e"], "self")):
             return self.ensure_get(f, node, core)
         fd = self.finite_domain_free(f)
         if fd is not None:
